@@ -96,6 +96,19 @@ where
             return Ok(());
         };
 
+        // A position beyond the last position of the binning scheme has no bin: `reg2bin` would
+        // return an ID past the last level, e.g., the ID of the metadata pseudo-bin.
+        let shift = u32::from(self.min_shift) + 3 * u32::from(self.depth);
+        let is_in_range =
+            |position: Position| 1usize.checked_shl(shift).is_none_or(|n| usize::from(position) < n);
+
+        if !is_in_range(start) || !is_in_range(end) {
+            return Err(io::Error::new(
+                io::ErrorKind::InvalidInput,
+                "invalid position: exceeds the maximum position of the binning scheme",
+            ));
+        }
+
         if self.reference_sequences.is_empty() {
             self.add_reference_sequences_until(0);
         }
